@@ -21,6 +21,7 @@ type Summary struct {
 	Died         int
 	OtherViols   map[string]int // violations of properties outside the focus, by property
 	RuleActive   int            // executions in which every rule took effect at least once
+	ByFamily     map[string]int
 	MaxRound     int64
 	MultiRound   int
 	Crashes      int
@@ -75,6 +76,10 @@ func RunCampaign(run *core.Run, scs []*Scenario, o CampaignOpts) *Summary {
 			return
 		}
 		res := out.Res
+		if sum.ByFamily == nil {
+			sum.ByFamily = map[string]int{}
+		}
+		sum.ByFamily[sc.Extra]++
 		sum.Steps += res.Steps
 		for _, h := range res.StateHashes {
 			sum.States[h] = struct{}{}
@@ -152,6 +157,7 @@ func (s *Summary) Coverage(rule string, bounds map[string]interface{}) core.Cove
 		"evaluations":                         s.Executions,
 		"distinct_nontrivial":                 s.Outcomes.Len(),
 		"rule":                                rule,
+		"executions_by_family":                s.ByFamily,
 		"executions_reaching_target":          s.Done,
 		"executions_with_round_changes":       s.MultiRound,
 		"executions_all_rules_active":         s.RuleActive,
